@@ -1,4 +1,4 @@
-package main
+package hlib
 
 import (
 	"encoding/hex"
@@ -7,9 +7,9 @@ import (
 	"strings"
 )
 
-func fields(op string) []string { return strings.Fields(op) }
+func Fields(op string) []string { return strings.Fields(op) }
 
-func pu64(s string) uint64 {
+func PU64(s string) uint64 {
 	v, err := strconv.ParseUint(s, 10, 64)
 	if err != nil {
 		panic("harness: bad uint64 " + s)
@@ -17,7 +17,7 @@ func pu64(s string) uint64 {
 	return v
 }
 
-func pi64(s string) int64 {
+func PI64(s string) int64 {
 	v, err := strconv.ParseInt(s, 10, 64)
 	if err != nil {
 		panic("harness: bad int64 " + s)
@@ -25,7 +25,7 @@ func pi64(s string) int64 {
 	return v
 }
 
-func phex(s string) []byte {
+func PHex(s string) []byte {
 	if s == "-" {
 		return []byte{}
 	}
@@ -36,7 +36,7 @@ func phex(s string) []byte {
 	return b
 }
 
-func hexs(b []byte) string {
+func Hex(b []byte) string {
 	if len(b) == 0 {
 		return "-"
 	}
@@ -44,21 +44,21 @@ func hexs(b []byte) string {
 }
 
 // errName maps an error to its sentinel name, or "other".
-func errName(err error, names map[error]string) string {
+func ErrName(err error, names map[error]string) string {
 	if n, ok := names[err]; ok {
 		return n
 	}
 	return "other"
 }
 
-func okU(v uint64) string { return "ok " + strconv.FormatUint(v, 10) }
-func okI(v int64) string  { return "ok " + strconv.FormatInt(v, 10) }
+func OkU(v uint64) string { return "ok " + strconv.FormatUint(v, 10) }
+func OkI(v int64) string  { return "ok " + strconv.FormatInt(v, 10) }
 
-func resU(v uint64, err error, names map[error]string) string {
+func ResU(v uint64, err error, names map[error]string) string {
 	if err != nil {
-		return "err " + errName(err, names)
+		return "err " + ErrName(err, names)
 	}
-	return okU(v)
+	return OkU(v)
 }
 
-func sprintf(f string, a ...interface{}) string { return fmt.Sprintf(f, a...) }
+func Sprintf(f string, a ...interface{}) string { return fmt.Sprintf(f, a...) }
